@@ -124,7 +124,7 @@ def compare_to_recipe(f, r, nsteps=None, times=True):
             out.append(('tflag', 'TFLAG differs across the VAR axis'))
         if 'ETFLAG' in f.variables.keys():
             ge = [tuple(int(x) for x in row) for row in np.asarray(f.variables['ETFLAG'][...])[:, 0, :]]
-            if ge != te[:n]:
+            if [camx_u.norm_flag(x) for x in ge] != [camx_u.norm_flag(x) for x in te[:n]]:
                 out.append(('etflag', 'ETFLAG %r expected %r' % (ge, te[:n])))
     if fmt == 'wind' and r.get('lstagger') is not None:
         if not hasattr(f, 'LSTAGGER') or int(f.LSTAGGER) != r['lstagger']:
@@ -156,10 +156,11 @@ def recipe_diff(dec, r):
                 ('hdr_nz' in r and False):
             out.append(('header-counts', 'nx,ny,nz=%r expected %r' % ((dec['nx'], dec['ny'], dec['nz']),
                                                                       (r['nx'], r['ny'], r['nz']))))
-        if [tuple(s) for s in dec['steps']] != [tuple(s) for s in r['steps']]:
+        # (hour 24 of a day and hour 0 of the next are two spellings of one instant: compared as instants)
+        if [camx_u.norm_step(s) for s in dec['steps']] != [camx_u.norm_step(s) for s in r['steps']]:
             out.append(('times', 'time records %r expected %r' % (dec['steps'], r['steps'])))
-        ht = tuple(dec['hdr_times'])
-        wt = (r['steps'][0][0], r['steps'][0][1], r['steps'][-1][2], r['steps'][-1][3])
+        ht = camx_u.norm_step(tuple(dec['hdr_times']))
+        wt = camx_u.norm_step((r['steps'][0][0], r['steps'][0][1], r['steps'][-1][2], r['steps'][-1][3]))
         if ht != wt:
             out.append(('header-dates', 'file header dates %r expected %r' % (ht, wt)))
         if dec['name'] != r['name'] or dec['note'] != r['note'] or dec['itzon'] != r['itzon']:
